@@ -252,7 +252,10 @@ func (view *View) group(ctx context.Context, scope *ReferenceScope, items []pars
 	for _, item := range items {
 		switch item.(type) {
 		case parser.FieldReference, parser.ColumnNumber:
-			idx, _ := view.Header.SearchIndex(item)
+			idx, err := view.Header.SearchIndex(item)
+			if err != nil {
+				return err
+			}
 			view.Header[idx].IsGroupKey = true
 		}
 	}
